@@ -28,7 +28,7 @@ func init() {
 		Level: "exploration",
 		Modes: []Mode{{Name: "events", Weight: 4}, {Name: "lifecycle", Weight: 3}, {Name: "race", Weight: 4}},
 		Gen:   genC18, Run: runC18,
-		QuickRuns: 10000, ThoroughRuns: 150000,
+		QuickRuns: 10000, ThoroughRuns: 750000,
 		Rule: "plan = program of 4..40 operations out of {On, Once, Off(h), Off(h1,h2[,h3]), Off() of an event, OffAll, fire} over 3 events and 6 distinct function literals (same handler registered twice, removal of absent handlers included), or (race) 2..6 tasks firing one event 1..8 times each while others register Once/On and remove; stall parameters focused on store.go; from VERIF_SEED. " +
 			"non-trivial = at least one Off with a present handler and one fire after it (sequential) / at least two fires overlapped (race); distinct = distinct program x history digest",
 		Assumptions: []string{
